@@ -14,7 +14,8 @@ import (
 	"verifharness/node"
 )
 
-// probe: vh drive sync-probe b2 b4 b3 c1.2 b1 tick txs ...   (prints the event log; a development aid)
+// probe: vh drive sync-probe b2 b4 b3 c1.2 b1 m1.2.3 tick txs ...   (prints the event log; a development aid)
+// (m1.2.3 = ONE BlocksMsg holding blocks 1, 2, 3 in that order)
 func probe(args []string) error {
 	wd := newWorld("syncprobe", 5)
 	defer wd.close()
@@ -42,6 +43,14 @@ func probe(args []string) error {
 			n.peer.push(p2p.BlocksMsg, enc(types.Blocks{node.Copy(wd.blocks[h], nil)}))
 			n.fence()
 			time.Sleep(50 * time.Millisecond)
+		case a[0] == 'm':
+			var bs []*types.Block
+			for _, x := range strings.Split(a[1:], ".") {
+				h, _ := strconv.Atoi(x)
+				bs = append(bs, wd.blocks[h])
+			}
+			n.deliverBlocks(bs, wd.blocks[0], a)
+			n.fence()
 		case a[0] == 'c':
 			p := strings.Split(a[1:], ".")
 			h, _ := strconv.Atoi(p[0])
